@@ -14,6 +14,7 @@ import (
 	"time"
 
 	"github.com/skycoin/skycoin/src/util/droplet"
+	wh "github.com/skycoin/skycoin/src/util/http"
 
 	"verif/engine"
 	md "verif/model/droplet"
@@ -386,6 +387,7 @@ func c30(r *engine.Run) {
 	// (B) all short strings + (C) structured boundary strings
 	alpha := []byte{'0', '1', '9', '.', '-', '+', 'e', ' '}
 	maxLen := r.Pick(5, 6)
+	var apiEvals int64
 	run := func(s, source string) {
 		atomic.AddInt64(&evals, 1)
 		var n uint64
@@ -393,6 +395,20 @@ func c30(r *engine.Run) {
 		pan, msg := engine.Catch(func() { n, err = droplet.FromString(s) })
 		cl := checkFromString(r, s, source, n, err, pan, msg)
 		outcomes.Add(cl)
+		// the same text as the API's amount parameter (wh.Coins, the type of to[].coins in the transaction requests): it must
+		// mean what FromString says it means
+		if !pan {
+			var c wh.Coins
+			var aerr error
+			jb, _ := json.Marshal(s)
+			if apan, amsg := engine.Catch(func() { aerr = c.UnmarshalJSON(jb) }); apan {
+				r.Failf("wh.Coins.UnmarshalJSON:panic", c30Case{Op: "wh.Coins.UnmarshalJSON", Input: s, Source: source}, "wh.Coins.UnmarshalJSON(%s) panics: %s", jb, amsg)
+			} else if (aerr == nil) != (err == nil) || (err == nil && uint64(c) != n) {
+				r.Failf("wh.Coins.UnmarshalJSON:differs-from-FromString:"+c30Class(s), c30Case{Op: "wh.Coins.UnmarshalJSON", Input: s, Source: source},
+					"the API amount parameter %s decodes to %d droplets, error %v; droplet.FromString(%q) = %d, error %v", jb, uint64(c), aerr, s, n, err)
+			}
+			atomic.AddInt64(&apiEvals, 1)
+		}
 		if cl != "other:rejected-malformed" {
 			nontrivial.Add("S:" + s)
 		}
@@ -469,12 +485,13 @@ func c30(r *engine.Run) {
 		"ToString above 2^63-1 may fail or return the exact text",
 		fmt.Sprintf("'every call returns': dangerous inputs run in a worker with 2 GiB address space and a %v deadline; a death or a missed deadline is reported as does-not-return", deadline))
 	r.Finish(engine.Coverage{
-		"evaluations":         evals,
-		"distinct_nontrivial": nontrivial.Len(),
-		"rule":                "distinct inputs that are not trivially rejected as malformed text: amounts with a fractional part or >= 2^62, strings that are well-formed decimal literals or accepted, structured boundary strings, dangerous exponents",
-		"samples":             []interface{}{c30Case{"FromString", "9223372036854.775807", "structured boundary string"}, c30Case{"FromString", "1e-6", "short string"}, c30Case{"ToString", "9223372036854775807", "amount alphabet"}},
-		"exhaustive":          true,
-		"outcome_histogram":   outcomes.Map(),
+		"evaluations":                      evals,
+		"api_amount_parameter_evaluations": apiEvals,
+		"distinct_nontrivial":              nontrivial.Len(),
+		"rule":                             "distinct inputs that are not trivially rejected as malformed text: amounts with a fractional part or >= 2^62, strings that are well-formed decimal literals or accepted, structured boundary strings, dangerous exponents",
+		"samples":                          []interface{}{c30Case{"FromString", "9223372036854.775807", "structured boundary string"}, c30Case{"FromString", "1e-6", "short string"}, c30Case{"ToString", "9223372036854775807", "amount alphabet"}},
+		"exhaustive":                       true,
+		"outcome_histogram":                outcomes.Map(),
 		"alphabet": map[string]interface{}{
 			"amounts": len(amounts), "short_strings": shortCount, "short_string_max_len": maxLen, "short_string_chars": "01 9.-+e<space>",
 			"structured_strings": len(structured), "dangerous_inputs": len(dangerous),
